@@ -173,4 +173,42 @@ theorem tidemanTier_in_smith (votes : Profile) :
           intro x hx
           exact hrv2 x (allRanked_subsetProfile hx).2
 
+/-- a profile whose pairwise counts have a Condorcet winner ranks at least two candidates -/
+theorem not_lone_of_cw {p : Profile} (hwf : WF (rankedToCondorcet p)) {w : Cand} (hw : IsCW (rankedToCondorcet p) w)
+    (c : Cand) : allRankedCandidates p ≠ [c] := by
+  intro h
+  obtain ⟨o, ho, hne⟩ := exists_other hwf hw.1
+  have h1 := candidates_rankedToCondorcet_sub p hw.1
+  have h2 := candidates_rankedToCondorcet_sub p ho
+  rw [h] at h1 h2
+  simp only [List.mem_singleton] at h1 h2
+  exact hne (h2.trans h1.symm)
+
+theorem benham_of_not_lone {p : Profile} (h : ∀ c, allRankedCandidates p ≠ [c]) : benham p = benhamCore p := by
+  unfold benham
+  split
+  · rename_i c hc; exact absurd hc (h c)
+  · rfl
+
+theorem tidemanRunTier_of_not_lone {smith : Bool} {f : Nat} {p : Profile} (h : ∀ c, allRankedCandidates p ≠ [c]) :
+    tidemanRunTier smith f p = tidemanTier smith f p := by
+  unfold tidemanRunTier
+  split
+  · rename_i c hc; exact absurd hc (h c)
+  · rfl
+
+theorem tideman_of_not_lone {smith : Bool} {p : Profile} (h : ∀ c, allRankedCandidates p ≠ [c]) :
+    tideman smith p = tidemanCore smith p := by
+  unfold tideman tidemanCore
+  rw [tidemanRunTier_of_not_lone h]
+
+theorem benham_lone {p : Profile} {c : Cand} (h : allRankedCandidates p = [c]) : benham p = .ok [Slot.cand c] := by
+  unfold benham; rw [h]
+
+theorem tideman_lone {smith : Bool} {p : Profile} {c : Cand} (h : allRankedCandidates p = [c]) :
+    tideman smith p = .ok [Slot.cand c] := by
+  unfold tideman tidemanRunTier
+  rw [h]
+  simp
+
 end VL.Condorcet
